@@ -186,3 +186,21 @@ def self_attr_stores(func: ast.AST, selfname: str = "self") -> List[Tuple[str, a
                     out.append((t.attr, n, t))
     out.sort(key=lambda x: (x[1].lineno, x[1].col_offset))
     return out
+
+
+def clone_ast(node):
+    """deep copy of an AST restricted to its syntactic fields and positions
+    (copy.deepcopy would follow the `_parent` / `_finfo` back links the engine
+    attaches and copy the whole module each time)"""
+    if isinstance(node, list):
+        return [clone_ast(x) for x in node]
+    if not isinstance(node, ast.AST):
+        return node
+    new = node.__class__()
+    for f in node._fields:
+        if hasattr(node, f):
+            setattr(new, f, clone_ast(getattr(node, f)))
+    for a in ("lineno", "col_offset", "end_lineno", "end_col_offset"):
+        if hasattr(node, a):
+            setattr(new, a, getattr(node, a))
+    return new
